@@ -61,6 +61,12 @@ Theorem ann_annotation_stable : forall D it t',
   add_missing D (to_sty (mode_of t') it) = Ok t'.
 Proof. exact ann_annotation_stable_proof. Qed.
 
+(* the explicit annotation in the text: `mode_short m` is read back as m by StringToMode and the
+   parser converts `m T` to to_sty m T — so `annotate` is what re-writing the source does *)
+Theorem annotation_word_roundtrip : forall m t, proper m = true ->
+  mode_of_string (mode_short m) = m /\ convert (Some (mode_short m)) t = to_sty m t.
+Proof. exact annotation_word_roundtrip_proof. Qed.
+
 (* the declarative assignment (spec/ModeSpec.v): proved half *)
 Theorem infer_correct_partial : forall D0 d,
   (infer_mode D0 (td_body d) <> Unset -> Fixes D0 (td_body d) (td_mode (with_mode D0 d))) /\
@@ -82,5 +88,6 @@ Print Assumptions assign_idempotent.
 Print Assumptions infer_perm.
 Print Assumptions infer_annotation_stable.
 Print Assumptions ann_annotation_stable.
+Print Assumptions annotation_word_roundtrip.
 Print Assumptions infer_correct_partial.
 Print Assumptions infer_hypotheses_satisfiable.
